@@ -5,6 +5,7 @@ package c01
 import (
 	"context"
 	"fmt"
+	"strings"
 	"sync"
 	"sync/atomic"
 	"testing"
@@ -92,15 +93,25 @@ func genHTTPRequest(t *rapid.T, label string) httpRequest {
 	default:
 		r.Verb = "list"
 	}
+	if (r.Verb == "list" || r.Verb == "watch") && rapid.Bool().Draw(t, label+".selectsOneObject") {
+		// a list / watch that selects ONE object by field selector (kubelet's secret / configmap / node watches,
+		// kubectl get <kind> <name> -w): a kube-apiserver takes the object's name from the selector
+		r.Name = rapid.SampledFrom([]string{"a", "b"}).Draw(t, label+".selectedName")
+		sep := "?"
+		if strings.Contains(target, "?") {
+			sep = "&"
+		}
+		target += sep + "fieldSelector=metadata.name%3D" + r.Name
+	}
 	r.Path = target
 	return httpRequest{method: method, target: target, attrs: r}
 }
 
 func TestPropHTTPRouting(t *testing.T) {
-	sub := stats.NewSub("http-routing", "rapid: 1-3 generated policies (all eight rule fields, tiny alphabets), policy i pinned to stub upstream i by its upstreamSubset, applied to a cluster behind the real handler chain + dispatcher; 4 generated HTTP requests (GET / POST / DELETE on resource paths with group, resource, name, subresource, ?watch=true, or on non-resource paths) from generated users and groups; oracle: the request is forwarded to the upstream of the first policy the reference matcher selects for the attributes a kube-apiserver derives from that request (verb, group, resource, subresource, name, path, user, groups); no matching policy => answered by the gateway (>= 400) and forwarded nowhere; non-trivial = the rules use resourceNames, subresource entries, inverted lists or globs; distinct by FNV-64 of (policies, requests)")
+	sub := stats.NewSub("http-routing", "rapid: 1-3 generated policies (all eight rule fields, tiny alphabets), policy i pinned to stub upstream i by its upstreamSubset, applied to a cluster behind the real handler chain + dispatcher; 4 generated HTTP requests (GET / POST / DELETE on resource paths with group, resource, name, subresource, ?watch=true, a field selector that selects one object of a collection by name, or on non-resource paths) from generated users and groups; oracle: the request is forwarded to the upstream of the first policy the reference matcher selects for the attributes a kube-apiserver derives from that request (verb, group, resource, subresource, name, path, user, groups); no matching policy => answered by the gateway (>= 400) and forwarded nowhere; non-trivial = the rules use resourceNames, subresource entries, inverted lists or globs; distinct by FNV-64 of (policies, requests)")
 	httpSetup()
 	ready := false
-	stats.Check(t, stats.N(700, 5000), func(t *rapid.T) {
+	stats.Check(t, stats.N(1500, 5000), func(t *rapid.T) {
 		policies := gen.GenPolicies(t, "policies", 3, 2)
 		c := gwbox.ClusterObject("route", "gateway-secret-token", httpPool.Upstreams...)
 		c.Spec.DispatchPolicies = nil
